@@ -83,7 +83,8 @@ def o7_5_finalize_inputs(mir, tier):
                 out = []
                 for j, fj in level_files.items():
                     if j in got or not got: continue
-                    split = Or(*[And(level_files[i]['lg'][0] == fj['sm'][0], klt(level_files[i]['lg'], fj['sm']), And(*[kle(level_files[x]['lg'], level_files[i]['lg']) for x in got])) for i in got])
+                    # the inputs of a level are a contiguous run: no remaining file may continue the last user key of ANY input
+                    split = Or(*[And(level_files[i]['lg'][0] == fj['sm'][0], klt(level_files[i]['lg'], fj['sm'])) for i in got])
                     out.append(('a user key is split between the %s inputs and a remaining file of that level (an older version of the key stays behind)' % what, Not(split)))
                 return out
             posts += closed(A, I[0], 'compaction-level')
